@@ -133,9 +133,18 @@ static const char *virt(const char *s)
   return s;
 }
 
+/* a callback may use the library itself to take its decision (a policy file that is a layered configuration):
+   "cbnest d1 d2 name suffix" makes every verdict be preceded by such a read, result dropped */
+static TL char *nest[4];
 static bool the_callback(const char *filename, const void *data)
 {
   if (data != &cb_data_token) cb_data_bad = 1;
+  if (nest[2]) {
+    int save = in_lib; in_lib = 0;
+    econf_file *nf = NULL;
+    if (econf_readDirs(&nf, nest[0], nest[1], nest[2], nest[3], "=", "#") == ECONF_SUCCESS) econf_free(nf);
+    in_lib = save;
+  }
   int ok = 1;
   for (int i = 0; i < n_reject; i++) if (!strcmp(reject[i], virt(filename))) ok = 0;
   if (n_check < 256) { check_log[n_check] = strdup(filename); check_ok[n_check++] = ok; }
@@ -144,6 +153,18 @@ static bool the_callback(const char *filename, const void *data)
   errno = (n_check & 1) ? ENOENT : 0;
   return ok;
 }
+
+/* the error location is a record, not a message that is consumed: asking twice gives the same answer */
+static TL int errloc_changed = 0;
+static void errloc2(char **fn, uint64_t *ln)
+{
+  char *f2 = NULL; uint64_t l2 = 0;
+  econf_errLocation(fn, ln);
+  econf_errLocation(&f2, &l2);
+  if (!thread_mode && (l2 != *ln || (!f2) != (!*fn) || (f2 && strcmp(f2, *fn)))) errloc_changed = 1;   /* with threads the record is shared by design */
+  free(f2);
+}
+#define ERRLOC_NOTE() do { if (errloc_changed) { printf(" ERRLOC-CHANGED-BY-ASKING"); errloc_changed = 0; } } while (0)
 
 static void begin_lib(void) { in_lib = 1; n_open = 0; n_check = 0; }
 static void end_lib(void)   { in_lib = 0; }
@@ -271,6 +292,16 @@ static int kind_of(const char *k)
 }
 
 static TL int eol = '\n';
+
+/* where "write" and "reread" put their file: alone, <root>/_out/w.conf; with threads, a file of the thread's own in ONE
+   directory that all threads write to (private files, shared directory) */
+static TL int thread_ix = -1;
+static char shared_out[4096];
+static void out_place(char **dir, char **fname)
+{
+  if (thread_mode && thread_ix >= 0 && shared_out[0]) { *dir = strdup(shared_out); if (asprintf(fname, "w-t%d.conf", thread_ix) < 0) abort(); }
+  else { *dir = vpath("/_out"); mkdir(*dir, 0755); *fname = strdup("w.conf"); }
+}
 
 /* Every getter gets its out-parameter pre-filled with a sentinel.  When the call is refused before any conversion is
    attempted (no object, no/empty key, key or group not found, key without value) the parameter must come back
@@ -431,9 +462,10 @@ static void do_parse(int o, char **t)
     free(opts); free(dir);
   }
   char *fn = NULL; uint64_t ln = 0;
-  econf_errLocation(&fn, &ln);
+  errloc2(&fn, &ln);
   if (e == ECONF_SUCCESS) printf("rc=0\n");
-  else { printf("rc=%d line=%" PRIu64 " file=", e, ln); enc_path(fn); putchar('\n'); }
+  else { printf("rc=%d line=%" PRIu64 " file=", e, ln); enc_path(fn); ERRLOC_NOTE(); putchar('\n'); }
+  errloc_changed = 0;
   free(fn);
   if (e != ECONF_SUCCESS && objs[o]) { printf("driver-error object returned with error\n"); exit(3); }
   free(path); free(content); argfree(dl); argfree(cm); free(real);
@@ -455,6 +487,7 @@ static void run_stream(FILE *in)
       clean_root();
       if (!thread_mode) { econf_reset_security_settings(); const char *none[] = { NULL }; econf_set_conf_dirs(none); }
       cb_mode = 0; for (int i = 0; i < n_reject; i++) free(reject[i]); n_reject = 0; cb_data_bad = 0;
+      for (int i = 0; i < 4; i++) { free(nest[i]); nest[i] = NULL; }
       scen_no++;
       printf("reset\n");
     } else if (!strcmp(c, "newkf")) {
@@ -501,11 +534,11 @@ static void run_stream(FILE *in)
       printf("rc=%d\n", e);
     } else if (!strcmp(c, "write")) {
       econf_file *kf = obj(t[1]);
-      char *dir = vpath("/_out"); mkdir(dir, 0755);
-      econf_err e = econf_writeFile(kf, dir, "w.conf");
+      char *dir, *wname; out_place(&dir, &wname);
+      econf_err e = econf_writeFile(kf, dir, wname);
       printf("rc=%d", e);
       if (e == ECONF_SUCCESS) {
-        char *fn; if (asprintf(&fn, "%s/w.conf", dir) < 0) abort();
+        char *fn; if (asprintf(&fn, "%s/%s", dir, wname) < 0) abort();
         FILE *f = fopen(fn, "rb"); char *b = NULL; size_t len = 0, capb = 0; int ch;
         while ((ch = fgetc(f)) != EOF) { if (len + 1 > capb) { capb = capb ? 2 * capb : 256; b = realloc(b, capb); } b[len++] = (char) ch; }
         struct stat wsb;
@@ -513,7 +546,7 @@ static void run_stream(FILE *in)
         if (stat(fn, &wsb) == 0 && (wsb.st_mode & 07777) != 0644) printf(" MODE=%o", (unsigned) (wsb.st_mode & 07777));
         free(fn);
       }
-      putchar('\n'); free(dir);
+      putchar('\n'); free(dir); free(wname);
     } else if (!strcmp(c, "writeto")) {
       /* econf_writeFile into a directory of the tree (which may not exist, or not be a directory) */
       econf_file *kf = obj(t[1]); char *d = dec(t[2]), *fn = dec(t[3]); char *real = vpath(d);
@@ -523,19 +556,19 @@ static void run_stream(FILE *in)
       int d = atoi(t[1]); econf_file *kf = obj(t[2]);
       if (!kf) { printf("noobj\n"); }
       else {
-        char *dir = vpath("/_out"); mkdir(dir, 0755);
-        econf_err e = econf_writeFile(kf, dir, "w.conf");
+        char *dir, *wname; out_place(&dir, &wname);
+        econf_err e = econf_writeFile(kf, dir, wname);
         if (e != ECONF_SUCCESS) printf("driver-error write failed %d\n", e);
         else {
           char dl[2] = { econf_delimiter_tag(kf), 0 }, cm[2] = { econf_comment_tag(kf), 0 };
-          char *fn; if (asprintf(&fn, "%s/w.conf", dir) < 0) abort();
+          char *fn; if (asprintf(&fn, "%s/%s", dir, wname) < 0) abort();
           if (objs[d]) { econf_free(objs[d]); objs[d] = NULL; }
           e = econf_readFile(&objs[d], fn, dl, cm);
           if (e == ECONF_SUCCESS) printf("rc=0\n");
-          else { char *f2 = NULL; uint64_t ln = 0; econf_errLocation(&f2, &ln); printf("rc=%d line=%" PRIu64 " file=", e, ln); enc_path(f2); putchar('\n'); free(f2); }
+          else { char *f2 = NULL; uint64_t ln = 0; errloc2(&f2, &ln); printf("rc=%d line=%" PRIu64 " file=", e, ln); enc_path(f2); ERRLOC_NOTE(); putchar('\n'); free(f2); }
           free(fn);
         }
-        free(dir);
+        free(dir); free(wname);
       }
     } else if (!strcmp(c, "dump")) {
       dump(obj(t[1]));
@@ -607,6 +640,10 @@ static void run_stream(FILE *in)
       n_reject = 0; cb_mode = strcmp(t[1], "none") ? 1 : 0;
       if (cb_mode && nt > 2) { int n; char **l = dec_list(t[2], &n); for (int i = 0; i < n && i < 64; i++) reject[n_reject++] = strdup(l[i]); free_list(l); }
       printf("rc=0\n");
+    } else if (!strcmp(c, "cbnest")) {
+      for (int i = 0; i < 4; i++) free(nest[i]);
+      nest[0] = vdir(t[1]); nest[1] = vdir(t[2]); nest[2] = dec(t[3]); nest[3] = dec(t[4]);
+      printf("rc=0\n");
     } else if (!strcmp(c, "newopts")) {
       int o = atoi(t[1]); if (objs[o]) econf_free(objs[o]); objs[o] = NULL;
       char *opts = dec(t[2]); char *m = opts ? map_options(opts) : NULL;
@@ -653,6 +690,8 @@ static void run_stream(FILE *in)
       econf_file **files = NULL; size_t n = 0;
       econf_err e = cb_mode ? econf_readDirsHistoryWithCallback(&files, &n, d1, d2, name, sfx, dl, cm, the_callback, &cb_data_token)
                             : econf_readDirsHistory(&files, &n, d1, d2, name, sfx, dl, cm);
+      for (int i = 0; i < n_check; i++) free(check_log[i]);       /* the callback's log is not printed here */
+      n_check = 0;
       if (e != ECONF_SUCCESS) printf("rc=%d\n", e);
       else {
         econf_file *cur = files[0]; int own = 0;
@@ -682,8 +721,8 @@ static void run_stream(FILE *in)
       }
       free(d1); free(d2); free(name); free(sfx); argfree(dl); argfree(cm);
     } else if (!strcmp(c, "errloc")) {
-      char *fn = NULL; uint64_t ln = 0; econf_errLocation(&fn, &ln);
-      printf("loc file="); enc_path(fn); printf(" line=%" PRIu64 "\n", ln); free(fn);
+      char *fn = NULL; uint64_t ln = 0; errloc2(&fn, &ln);
+      printf("loc file="); enc_path(fn); printf(" line=%" PRIu64, ln); ERRLOC_NOTE(); putchar('\n'); free(fn);
     } else if (!strcmp(c, "opts")) {
       econf_file *kf = obj(t[1]);
       if (!kf) printf("noobj\n");
@@ -718,10 +757,11 @@ static void run_stream(FILE *in)
   free(line);
 }
 
-struct targ { char rootdir[4096]; char scen[4096]; char *buf; size_t len; };
+struct targ { char rootdir[4096]; char scen[4096]; char *buf; size_t len; int ix; };
 static void *thread_main(void *p)
 {
   struct targ *a = p;
+  thread_ix = a->ix;
   mkdir(a->rootdir, 0755);
   if (!realpath(a->rootdir, root)) return NULL;
   rootlen = strlen(root);
@@ -740,10 +780,11 @@ int main(int argc, char **argv)
   if (argc >= 4 && !strcmp(argv[1], "--threads")) {
     int k = argc - 3; thread_mode = 1;
     mkdir(argv[2], 0755);
+    snprintf(shared_out, sizeof shared_out, "%s/_shared_out", argv[2]); mkdir(shared_out, 0755);
     pthread_t *th = calloc(k, sizeof *th); struct targ *ta = calloc(k, sizeof *ta);
     for (int i = 0; i < k; i++) {
       snprintf(ta[i].rootdir, sizeof ta[i].rootdir, "%s/t%d", argv[2], i);
-      snprintf(ta[i].scen, sizeof ta[i].scen, "%s", argv[3 + i]);
+      snprintf(ta[i].scen, sizeof ta[i].scen, "%s", argv[3 + i]); ta[i].ix = i;
       pthread_create(&th[i], NULL, thread_main, &ta[i]);
     }
     for (int i = 0; i < k; i++) pthread_join(th[i], NULL);
